@@ -788,6 +788,7 @@ func runC15(c *Ctx) {
 	})
 	runC15TLS(c, pki)
 	runC15Blind(c, pki)
+	runC15Renegotiation(c, pki)
 }
 
 func verClass(v int) string {
